@@ -275,7 +275,8 @@ def run(tier: str, seed: int) -> Report:
                 "histories on freshly restarted ECUs). non-trivial = distinct cases whose model offers >= 2 sessions "
                 "or that produced a security seed")
     rep.assumptions = [
-        "time.time is virtual in the child processes (the 10 s inactivity reset of handle_request is kept out of play)",
+        "time.time is virtual in the child processes; the variants differ in the tester's pacing (back to back, 0.3 s and 4 s "
+        "between requests, always below the 10 s inactivity reset of handle_request, which therefore must never fire)",
         "T = DiagnosticSessionControl sub-function lists of the dumped model restricted to offered sessions; a session "
         "offering ECUReset with a reset type also counts as able to return (ISO 14229-1: reset ends in the default session)",
         "'same request history' for challenge/response: the tester derives the key from the seed it received; such steps "
